@@ -371,7 +371,7 @@ func (fr *Frame) applyContract(ct *Contract, sig *types.Signature, names []strin
 		if lbl == "" {
 			lbl = fmt.Sprint(i + 1)
 		}
-		g := env.eval(rq.E).T()
+		g := env.evalGoal(rq.E).T()
 		short := calleeKey[strings.LastIndex(calleeKey, ".")+1:]
 		fr.oblige("pre", fmt.Sprintf("%s.%s@L%d", short, lbl, line), g, rq.Props, pos, "requires "+rq.Src+" of "+calleeKey)
 		vc.assume(fr.curR, g)
@@ -389,7 +389,11 @@ func (fr *Frame) applyContract(ct *Contract, sig *types.Signature, names []strin
 	}
 	bindResults(vc, post, sig, ct.Results, res)
 	for _, en := range ct.Ensures {
-		vc.assume(fr.curR, post.eval(en.E).T())
+		vc.assume(fr.curR, post.evalAssume(en.E).T())
+	}
+	for _, en := range ct.Defines {
+		vc.note("ghost definition assumed at call sites of " + calleeKey + ": " + en.Src)
+		vc.assume(fr.curR, post.evalAssume(en.E).T())
 	}
 	return res
 }
